@@ -1,7 +1,150 @@
 import IbModel.Util.Wire
-/-! Driver handlers for C15 (request kinds served for that property). -/
-namespace IB.D15
+import IbModel.Model.Sketches
+import IbModel.Model.SketchesFloat
+/-!
+Driver handlers for C15.
 
-def handlers : List (String × (List String → String)) := []
+`TDIGEST <δ> <aq|raw|med> <full|q> <tree> <values> <qs> <cdfs>`
+  * every number is the hex bit pattern of an `f64` (16 digits); lists are comma separated, `-` = empty
+  * tree (preorder, comma separated): `L<n>` = `create` + `add_input` of the next `n` values,
+    `B<n>` = `build_from_group` of the next `n` values, `M` = `left.merge(right)`
+  * `aq` = `ApproxQuantiles::finish`, `raw` = `TDigest::quantiles` on the merged digest, `med` = `ApproxMedian::finish`
+  answer (`full`): `Q F… | S <#centroids> Ftotal Fmin Fmax | C Fmean Fweight … | D F… | INV I<j>…`
+  (state of the merged digest *before* finish; `INV` = positions where the estimate decreases although q does not)
+  answer (`q`): `Q F…`
+
+`KMV <k> <new|raw> <full|est> <tree> <ranks>`  (`new` = k goes through `KMVApproxDistinctCount::new`)
+  answer (`full`): `<F…|PANIC> M<|set|> H<|heap|> K<k> | H F… | S F…` (sorted ascending); (`est`): `<F…|PANIC>`
+-/
+namespace IB.D15
+open IB.Wire IB.Sketches
+
+def hexNat? (s : String) : Option Nat :=
+  s.toList.foldlM (fun acc c => (hexDigit? c).map (fun d => acc * 16 + d)) 0
+
+def float? (s : String) : Option Float :=
+  if s.length != 16 then none else (hexNat? s).map (fun n => Float.ofBits (UInt64.ofNat n))
+
+def floats? (s : String) : Option (List Float) :=
+  if s == "-" then some [] else (s.splitOn ",").mapM float?
+
+def ftok (x : Float) : String := "F" ++ F.toDecimal x
+def otok (d : Float) : Option Float → String
+  | some x => ftok x
+  | none => ftok d
+
+def nan : Float := 0.0 / 0.0
+def inf : Float := 1.0 / 0.0
+
+inductive Shape where
+  | leaf (n : Nat) | built (n : Nat) | node (l r : Shape)
+
+/-- parse a preorder shape; fuel = number of tokens -/
+def shape? : Nat → List String → Option (Shape × List String)
+  | 0, _ => none
+  | _ + 1, [] => none
+  | fuel + 1, t :: ts =>
+    if t == "M" then do
+      let (l, ts) ← shape? fuel ts
+      let (r, ts) ← shape? fuel ts
+      pure (.node l r, ts)
+    else if t.startsWith "L" then (parseNat? (t.drop 1).toString).map (fun n => (.leaf n, ts))
+    else if t.startsWith "B" then (parseNat? (t.drop 1).toString).map (fun n => (.built n, ts))
+    else none
+
+def parseShape? (s : String) : Option Shape :=
+  let ts := s.splitOn ","
+  match shape? (ts.length + 1) ts with
+  | some (sh, []) => some sh
+  | _ => none
+
+/-- distribute the values over the leaves, left to right -/
+def fillM {β : Type} : Shape → List β → Option (MTree β × List β)
+  | .leaf n, xs => if xs.length < n then none else some (.leaf (xs.take n), xs.drop n)
+  | .built n, xs => if xs.length < n then none else some (.built (xs.take n), xs.drop n)
+  | .node l r, xs => do
+      let (a, xs) ← fillM l xs
+      let (b, xs) ← fillM r xs
+      pure (.node a b, xs)
+
+def fillK {β : Type} : Shape → List β → Option (KTree β × List β)
+  | .leaf n, xs => if xs.length < n then none else some (.leaf (xs.take n), xs.drop n)
+  | .built n, xs => if xs.length < n then none else some (.leaf (xs.take n), xs.drop n)
+  | .node l r, xs => do
+      let (a, xs) ← fillK l xs
+      let (b, xs) ← fillK r xs
+      pure (.node a b, xs)
+
+def inversions (qs : List Float) (es : List (Option Float)) : List Nat :=
+  let rec go (i : Nat) : List (Float × Option Float) → List Nat
+    | (q1, some e1) :: (q2, some e2) :: rest =>
+      let tl := go (i + 1) ((q2, some e2) :: rest)
+      if q1 ≤ q2 && e1 > e2 then i :: tl else tl
+    | _ :: rest => go (i + 1) rest
+    | [] => []
+  go 0 (qs.zip es)
+
+def joinToks (ts : List String) : String := " ".intercalate ts
+
+def handleTDigest : List String → String
+  | [δ, fin, out, tree, vals, qs, cdfs] =>
+    match float? δ, parseShape? tree, floats? vals, floats? qs, floats? cdfs with
+    | some δ, some sh, some vals, some qs, some cdfs =>
+      match fillM sh vals with
+      | some (t, []) =>
+        let d : TDigest Float := t.eval δ
+        let est? : Option (List (Option Float)) :=
+          if fin == "aq" then some (approxQuantilesFinish qs d)
+          else if fin == "raw" then some (d.quantiles qs)
+          else if fin == "med" then some [approxMedianFinish d]
+          else none
+        match est? with
+        | none => "BAD-OP"
+        | some es =>
+          let qpart := joinToks ("Q" :: es.map (otok nan))
+          if out == "q" then qpart
+          else if out == "full" then
+            let spart := joinToks ["S", toString d.centroids.length, ftok d.total, otok inf d.min, otok (-inf) d.max]
+            let cpart := joinToks ("C" :: d.centroids.flatMap (fun c => [ftok c.mean, ftok c.weight]))
+            let dpart := joinToks ("D" :: cdfs.map (fun v => ftok (d.cdf v)))
+            let inv := inversions qs es
+            let ipart := joinToks ("INV" :: (if inv.isEmpty then ["-"] else inv.map (fun i => "I" ++ toString i)))
+            qpart ++ " | " ++ spart ++ " | " ++ cpart ++ " | " ++ dpart ++ " | " ++ ipart
+          else "BAD-OP"
+      | _ => "BAD-OP"
+    | _, _, _, _, _ => "BAD-OP"
+  | _ => "BAD-OP"
+
+def sortF (xs : List Float) : List Float := xs.mergeSort (fun a b => decide (a ≤ b))
+
+def handleKMV : List String → String
+  | [k, mode, out, tree, ranks] =>
+    match parseNat? k, parseShape? tree, floats? ranks with
+    | some k, some sh, some ranks =>
+      if ranks.any Float.isNaN then "BAD-OP" else
+      match fillK sh ranks with
+      | some (t, []) =>
+        let k? : Option Nat := if mode == "new" then some (kmvK k) else if mode == "raw" then some k else none
+        match k? with
+        | none => "BAD-OP"
+        | some k =>
+          let a : KMV Float := t.eval k
+          let est := match a.finish with
+            | .zero => ftok 0.0
+            | .exact m => ftok (UInt64.ofNat m).toFloat
+            | .est k rk => ftok (((UInt64.ofNat k).toFloat - 1.0) / rk)
+            | .panic => "PANIC"
+          if out == "est" then est
+          else if out == "full" then
+            joinToks [est, "M" ++ toString a.set.length, "H" ++ toString a.heap.length, "K" ++ toString a.k]
+              ++ " | " ++ joinToks ("H" :: (sortF a.heap).map ftok)
+              ++ " | " ++ joinToks ("S" :: (sortF a.set).map ftok)
+          else "BAD-OP"
+      | _ => "BAD-OP"
+    | _, _, _ => "BAD-OP"
+  | _ => "BAD-OP"
+
+def handlers : List (String × (List String → String)) :=
+  [("TDIGEST", handleTDigest), ("KMV", handleKMV)]
 
 end IB.D15
